@@ -702,6 +702,22 @@ def gen_dyn_case(rnd, ctx):
     return dict(npool=npool, shape="acyclic", ops=ops)
 
 
+def truncate_replays(ctx):
+    """Replay files keep only the history up to the failing step (container numbering depends on the
+    prefix, so operations are never deleted from the middle)."""
+    for _key, path, _no_input in ctx.violations:
+        try:
+            d = json.load(open(path))
+            r = d.get("replay", {})
+            if isinstance(r.get("case"), dict) and isinstance(r.get("step"), int) and isinstance(r.get("impl_obs"), list):
+                r["case"]["ops"] = r["case"]["ops"][:r["step"] + 1]
+                r["impl_obs"] = r["impl_obs"][:r["step"] + 1]
+                with open(path, "w") as f:
+                    json.dump(d, f, indent=1)
+        except Exception:
+            pass
+
+
 def check_hyps(ctx, cases):
     """Evaluate the hypotheses of the theorems (Model.hyps) on the model run of every case."""
     terms = [(Nat(c["npool"]), [op_term(o) for o in c["ops"]]) for c in cases]
@@ -726,18 +742,21 @@ def run(ctx):
     ctx.cov["trusted_base"] += [
         "tools/drivers/c08_driver.py (object <-> atom mapping, recording handlers, dumps of links and notifier "
         "lists) and tools/props/c08.py (generator; its shadow heap supplies the positional meaning (i, n, items) of "
-        "each list/dict/set mutator, checked against the implementation's contents after every step)",
+        "each list/dict/set mutator, checked against the implementation's contents after every step; the trait "
+        "names matched by the filter nodes)",
         "modelled, not verified: TraitList/TraitDict/TraitSet mutators as splices with a faithful delta (C05-C07); "
-        "Python equality of containers; weak references, dispatch='ui' and trait_added are outside the model",
+        "Python equality of containers; graph equality modulo child order (canonical order handed to the model); "
+        "the optional flag, weak references and dispatch='ui' are outside the model",
     ]
     ctx.cov["rule"] = ("histories over a pool of 3-5 interlinked HasTraits objects (Instance, List, Dict, Set of "
                        "instances): mutations before and after observe(), expressions from a typed random graph "
-                       "generator (series, parallel, repeated children, quiet links, depth <= 4) and named shapes, "
-                       "1-3 registrations with 2 handlers and several roots, removal of registrations, equal "
-                       "containers re-assigned, objects inserted twice, defaults materialised late, operations on "
-                       "detached containers; after every mutation every pool object's value is probed; generated "
-                       "heaps are acyclic, the F14 triggers are fixed corpus cases; non-trivial = some handler call "
-                       "observed; distinct = distinct operation list")
+                       "generator (series, parallel, quiet links, optional flags, metadata / match / anytrait filter "
+                       "nodes, 'a | b' at the top, depth <= 4) and named shapes, 1-3 registrations with 2 handlers and "
+                       "several roots, repeated registration, removal, equal containers re-assigned, objects inserted "
+                       "twice, defaults materialised late, operations on detached containers; a second family with "
+                       "add_trait (optional observers of traits added later, anytrait); after every mutation every "
+                       "pool object's value is probed; generated heaps are acyclic, the two F14 triggers are fixed "
+                       "corpus cases; non-trivial = some handler call observed; distinct = distinct operation list")
     rnd = random.Random(ctx.seed)
     n, maxmut = (500, 8) if ctx.tier == "quick" else (6000, 14)
     if ctx.replay:
@@ -754,6 +773,7 @@ def run(ctx):
         ctx.sample(c)
     hist.run(ctx, DRIVER, cases, to_term, HEADER, CASE_T, key_fn, describe, nontrivial,
              relation="C08.Corr.corr_codes (Model.step = observe machinery on every step)", do_shrink=False)
+    truncate_replays(ctx)
     if not ctx.replay:
         check_hyps(ctx, cases)
     proof_gate(ctx, ok, log, PROPS)
